@@ -139,6 +139,14 @@ package ociregistry
 //@ func ErrorSeq$1
 //@   ensures[yields-exactly-the-error] calls == [yield(_, err)]
 
+// SliceSeq likewise: listings return SliceSeq(items). Its closure hands out
+// elements of the slice only, never an error, and stops when told to.
+//@ func SliceSeq
+//@   pure
+//@   ensures result != nil
+//@ func SliceSeq$1
+//@   yield-requires(x, err) err == nil && exists i int :: 0 <= i && i < len(xs) && xs[i] == x
+
 // ---------------------------------------------------------------------------
 // C07: errors keep their identity, status and message across the wire.
 //
